@@ -1,1 +1,902 @@
 // Kani harnesses compiled inside rs-matter/src/tlv/read.rs (module `verif_kani`).
+
+mod c16 {
+    use super::*;
+
+    const TAG_OCTETS: [usize; 8] = [0, 1, 2, 4, 2, 4, 6, 8];
+
+    /// The symbolic input: an arbitrary prefix of an arbitrary array.
+    fn any_prefix<const N: usize>(buf: &[u8; N]) -> &[u8] {
+        let n: usize = kani::any();
+        kani::assume(n <= N);
+        &buf[..n]
+    }
+
+    /// Header of the first element by the encoding rules: element type, tag octets, length-field octets.
+    #[derive(Clone, Copy)]
+    struct Hdr {
+        ty: u8,
+        tag: usize,
+        ll: usize,
+    }
+
+    fn hdr(b: &[u8]) -> Option<Hdr> {
+        if b.is_empty() {
+            return None;
+        }
+        let ty = b[0] & 0x1f;
+        if ty > 0x18 {
+            return None;
+        }
+        let tag = TAG_OCTETS[(b[0] >> 5) as usize];
+        let ll = if ty >= 0x0c && ty <= 0x13 { 1usize << (ty & 3) } else { 0 };
+        Some(Hdr { ty, tag, ll })
+    }
+
+    /// Little-endian integer of `w <= 8` octets at `off`; `None` when it does not lie in the input.
+    fn le(b: &[u8], off: usize, w: usize) -> Option<u64> {
+        if off + w > b.len() {
+            return None;
+        }
+        let g = |i: usize| if i < w { (b[off + i] as u64) << (8 * i) } else { 0 };
+        Some(g(0) | g(1) | g(2) | g(3) | g(4) | g(5) | g(6) | g(7))
+    }
+
+    fn sext(u: u64, w: usize) -> i64 {
+        match w {
+            1 => u as u8 as i8 as i64,
+            2 => u as u16 as i16 as i64,
+            4 => u as u32 as i32 as i64,
+            _ => u as i64,
+        }
+    }
+
+    fn fixed_octets(ty: u8) -> u64 {
+        if ty <= 7 {
+            1 << (ty & 3)
+        } else if ty == 0x0a {
+            4
+        } else if ty == 0x0b {
+            8
+        } else {
+            0
+        }
+    }
+
+    /// Number of value octets the header declares (strings: the length field), if the header is complete.
+    fn declared(b: &[u8], h: Hdr) -> Option<u64> {
+        if h.ll > 0 {
+            le(b, 1 + h.tag, h.ll)
+        } else {
+            Some(fixed_octets(h.ty))
+        }
+    }
+
+    /// Exact extent of the first element (containers: of the opening element only).
+    fn extent(b: &[u8], h: Hdr) -> Option<u128> {
+        declared(b, h).map(|l| 1 + h.tag as u128 + h.ll as u128 + l as u128)
+    }
+
+    /// The first element lies completely in the input.
+    fn complete(b: &[u8], h: Hdr) -> bool {
+        matches!(extent(b, h), Some(x) if x <= b.len() as u128)
+    }
+
+    /// `s` is a sub-range of `b` (an empty slice is one trivially).
+    fn within(b: &[u8], s: &[u8]) -> bool {
+        if s.is_empty() {
+            return true;
+        }
+        let bp = b.as_ptr() as usize;
+        let sp = s.as_ptr() as usize;
+        sp >= bp && sp - bp <= b.len() && s.len() <= b.len() - (sp - bp)
+    }
+
+    /// `s` is exactly `b[off .. off + len]`.
+    fn is_range(b: &[u8], s: &[u8], off: usize, len: usize) -> bool {
+        s.len() == len
+            && off <= b.len()
+            && len <= b.len() - off
+            && (len == 0 || s.as_ptr() as usize == b.as_ptr() as usize + off)
+    }
+
+    /// Restriction used by some quick-tier harnesses (always labelled in KIND): the first element
+    /// has an anonymous or a context tag (0 or 1 tag octets). The unrestricted twin is in the thorough tier.
+    fn short_tag(b: &[u8]) -> bool {
+        b.is_empty() || b[0] >> 5 <= 1
+    }
+
+    // ------------------------------------------------------------------------------------------
+    // TLVSequence: the loop-free steps on the first element
+    // ------------------------------------------------------------------------------------------
+
+    /// `control, tag_start, tag, value_len_start, value_start, value_len` with the control the
+    /// sequence itself reports (the way every caller in the crate uses them).
+    // TIER: quick
+    // KIND: bounded (20 bytes; the functions are loop-free and inspect at most the first 17 octets and the length)
+    #[kani::proof]
+    fn c16_seq_header_steps() {
+        let buf: [u8; 20] = kani::any();
+        let b = any_prefix(&buf);
+        let n = b.len();
+        let s = TLVSequence(b);
+        let h = hdr(b);
+
+        let c = s.control();
+        kani::assert(c.is_ok() == h.is_some(), "C16.seq.control.ok_iff_assigned_type");
+        if let Ok(c) = &c {
+            kani::assert(c.as_raw() == b[0], "C16.seq.control.is_first_octet");
+        }
+
+        let ts = s.tag_start();
+        kani::assert(ts.is_ok() == (n >= 1), "C16.seq.tag_start.ok_iff_nonempty");
+        if let Ok(ts) = ts {
+            kani::assert(is_range(b, ts, 1, n - 1), "C16.seq.tag_start.is_suffix_after_control");
+        }
+
+        if let (Ok(c), Some(h)) = (c, h) {
+            let tag_fits = 1 + h.tag <= n;
+            let len_fits = 1 + h.tag + h.ll <= n;
+
+            let t = s.tag(c.tag_type);
+            kani::assert(t.is_ok() == tag_fits, "C16.seq.tag.ok_iff_tag_in_input");
+            if let Ok(t) = t {
+                kani::assert(is_range(b, t, 1, h.tag), "C16.seq.tag.is_tag_octets");
+            }
+
+            let vls = s.value_len_start(c.tag_type);
+            kani::assert(vls.is_ok() == tag_fits, "C16.seq.value_len_start.ok_iff_tag_in_input");
+            if let Ok(v) = vls {
+                kani::assert(is_range(b, v, 1 + h.tag, n - 1 - h.tag), "C16.seq.value_len_start.is_suffix");
+            }
+
+            let vs = s.value_start(c);
+            kani::assert(vs.is_ok() == len_fits, "C16.seq.value_start.ok_iff_header_in_input");
+            if let Ok(v) = vs {
+                kani::assert(
+                    is_range(b, v, 1 + h.tag + h.ll, n - 1 - h.tag - h.ll),
+                    "C16.seq.value_start.is_suffix"
+                );
+            }
+
+            let vl = s.value_len(c);
+            kani::assert(vl.is_ok() == declared(b, h).is_some(), "C16.seq.value_len.ok_iff_length_field_in_input");
+            if let (Ok(vl), Some(d)) = (&vl, declared(b, h)) {
+                kani::assert(*vl as u64 == d, "C16.seq.value_len.is_declared_length");
+            }
+        }
+
+        kani::cover!(matches!(h, Some(h) if h.ll == 8 && declared(b, h) == Some(u64::MAX)), "length field 2^64-1");
+        kani::cover!(matches!(h, Some(h) if h.tag == 8 && h.ll == 8 && n == 20), "8-octet tag + 8-octet length");
+        kani::cover!(matches!(h, Some(h) if h.ll == 4 && declared(b, h).is_none()), "truncated length field");
+        kani::cover!(n == 0, "empty input");
+        kani::cover!(n > 0 && h.is_none(), "reserved element type");
+    }
+
+    /// `value, next_start, next_enter, current`: accepted exactly when the first element lies in
+    /// the input; results are the payload / the suffix after the element; the cursor strictly shortens.
+    // TIER: quick
+    // KIND: bounded (18 bytes; loop-free)
+    #[kani::proof]
+    fn c16_seq_value_and_cursor_steps() {
+        let buf: [u8; 18] = kani::any();
+        let b = any_prefix(&buf);
+        let n = b.len();
+        let s = TLVSequence(b);
+        let h = hdr(b);
+
+        if let (Ok(c), Some(h)) = (s.control(), h) {
+            let v = s.value(c);
+            kani::assert(v.is_ok() == complete(b, h), "C16.seq.value.ok_iff_element_in_input");
+            if let Ok(v) = v {
+                kani::assert(within(b, v), "C16.seq.value.within_input");
+                kani::assert(
+                    is_range(b, v, 1 + h.tag + h.ll, declared(b, h).unwrap() as usize),
+                    "C16.seq.value.is_payload_octets"
+                );
+            }
+
+            let ns = s.next_start(c);
+            kani::assert(ns.is_ok() == complete(b, h), "C16.seq.next_start.ok_iff_element_in_input");
+            if let Ok(r) = ns {
+                let x = extent(b, h).unwrap() as usize;
+                kani::assert(is_range(b, r, x, n - x), "C16.seq.next_start.is_suffix_after_element");
+                kani::assert(r.len() < n, "C16.seq.next_start.strictly_shorter");
+            }
+
+            let cur = s.current();
+            kani::assert(
+                cur.is_ok() == (h.ty != 0x18 || b[0] == 0x18),
+                "C16.seq.current.err_only_on_tagged_end_marker"
+            );
+            if let Ok(e) = cur {
+                if b[0] == 0x18 {
+                    kani::assert(e.is_empty(), "C16.seq.current.empty_at_end_marker");
+                } else {
+                    kani::assert(is_range(b, e.raw_data(), 0, n), "C16.seq.current.is_the_input");
+                }
+            }
+        } else {
+            kani::assert(s.current().is_ok() == (n == 0), "C16.seq.current.unassigned_type_is_err");
+        }
+
+        let ne = s.next_enter();
+        match h {
+            Some(h) => {
+                kani::assert(ne.is_ok() == complete(b, h), "C16.seq.next_enter.ok_iff_element_in_input");
+                if let Ok(r) = ne {
+                    let x = extent(b, h).unwrap() as usize;
+                    kani::assert(is_range(b, r.0, x, n - x), "C16.seq.next_enter.is_suffix_after_element");
+                    kani::assert(r.0.len() < n, "C16.seq.next_enter.strictly_shorter");
+                }
+            }
+            None => {
+                // empty input stays empty (the fixpoint the iterators rely on), anything else is an error
+                kani::assert(ne.is_ok() == (n == 0), "C16.seq.next_enter.unassigned_type_is_err");
+                if let Ok(r) = ne {
+                    kani::assert(r.0.is_empty(), "C16.seq.next_enter.empty_stays_empty");
+                }
+            }
+        }
+
+        kani::cover!(matches!(h, Some(h) if h.ll == 8 && complete(b, h) && n > 12), "complete string with 64-bit length field");
+        kani::cover!(matches!(h, Some(h) if h.ll == 8 && declared(b, h) == Some(u64::MAX)), "length field 2^64-1");
+        kani::cover!(matches!(h, Some(h) if !complete(b, h)), "truncated element");
+        kani::cover!(n == 0, "empty input");
+        kani::cover!(n > 0 && b[0] == 0x18, "end marker");
+    }
+
+    /// Kani twin of the contract the Verus unit assumes for `TLVSequence::value_len`: arbitrary
+    /// octets, ARBITRARY control (not necessarily the one in the slice); precondition: non-empty.
+    // TIER: quick
+    // KIND: bounded (20 bytes; loop-free)
+    #[kani::proof]
+    fn c16_value_len_contract() {
+        let buf: [u8; 20] = kani::any();
+        let b = any_prefix(&buf);
+        kani::assume(!b.is_empty());
+        let raw: u8 = kani::any();
+        let c = TLVControl::parse(raw);
+        kani::assume(c.is_ok());
+        let c = c.unwrap();
+        let ty = raw & 0x1f;
+        let tag_size = TAG_OCTETS[(raw >> 5) as usize];
+        let is_string = ty >= 0x0c && ty <= 0x13;
+        let is_container = ty >= 0x15;
+        let len_field = if is_string { 1usize << (ty & 3) } else { 0 };
+
+        let r = TLVSequence(b).value_len(c);
+        if let Ok(l) = r {
+            if !is_string {
+                kani::assert(l <= 8, "C16.value_len.fixed_size_at_most_8");
+            }
+            if is_container {
+                kani::assert(l == 0, "C16.value_len.container_is_0");
+            }
+            if is_string {
+                kani::assert(b.len() >= 1 + tag_size + len_field, "C16.value_len.string_ok_implies_length_field_in_input");
+                kani::assert(le(b, 1 + tag_size, len_field) == Some(l as u64), "C16.value_len.string_is_length_field");
+            }
+        } else {
+            kani::assert(is_string && b.len() < 1 + tag_size + len_field, "C16.value_len.err_only_when_length_field_missing");
+        }
+        kani::cover!(r.is_ok() && is_string && len_field == 8, "64-bit length field read");
+        kani::cover!(r.is_err(), "length field missing");
+        kani::cover!(r.is_ok() && is_container, "container");
+        kani::cover!(matches!(r, Ok(8)) && !is_string, "8-octet fixed size");
+    }
+
+    /// The same steps with a control that does NOT come from the slice (the functions take it as
+    /// an argument): still total, results still inside the input. Precondition of
+    /// `value_len_start` (and of everything built on it): the sequence is not empty - every call
+    /// site obtains the control from `self.control()?`, which establishes it.
+    // TIER: quick
+    // KIND: bounded (20 bytes; loop-free)
+    #[kani::proof]
+    fn c16_seq_steps_any_control() {
+        let buf: [u8; 20] = kani::any();
+        let b = any_prefix(&buf);
+        kani::assume(!b.is_empty());
+        let n = b.len();
+        let s = TLVSequence(b);
+        let raw: u8 = kani::any();
+        let c = TLVControl::parse(raw);
+        kani::assume(c.is_ok());
+        let c = c.unwrap();
+
+        if let Ok(v) = s.tag(c.tag_type) {
+            kani::assert(within(b, v), "C16.seq.anyctl.tag_within_input");
+        }
+        if let Ok(v) = s.value_len_start(c.tag_type) {
+            kani::assert(within(b, v), "C16.seq.anyctl.value_len_start_within_input");
+        }
+        if let Ok(v) = s.value_start(c) {
+            kani::assert(within(b, v), "C16.seq.anyctl.value_start_within_input");
+        }
+        let _ = s.value_len(c);
+        if let Ok(v) = s.value(c) {
+            kani::assert(within(b, v), "C16.seq.anyctl.value_within_input");
+        }
+        if let Ok(v) = s.next_start(c) {
+            kani::assert(within(b, v) && v.len() < n, "C16.seq.anyctl.next_start_within_and_shorter");
+        }
+        kani::cover!(s.value(c).is_ok() && c.as_raw() != b[0], "foreign control accepted");
+        kani::cover!(s.value(c).is_err(), "foreign control refused");
+    }
+
+    // ------------------------------------------------------------------------------------------
+    // len(): exact when representable, an error otherwise (D4)
+    // ------------------------------------------------------------------------------------------
+
+    fn check_len(b: &[u8]) {
+        let s = TLVSequence(b);
+        let h = hdr(b);
+        let r = s.len();
+        match h.and_then(|h| extent(b, h)) {
+            Some(x) => {
+                // the property: a reported length is the exact extent; an extent that is not
+                // representable (or not in the input) must be an error, never a wrapped number
+                if let Ok(l) = r {
+                    kani::assert(l as u128 == x, "C16.seq.len.is_exact_extent");
+                    // and it agrees with the cursor: when the element is in the input, `len` is
+                    // what `next_start` skips
+                    if let Ok(rest) = s.next_start(s.control().unwrap()) {
+                        kani::assert(l <= b.len() && rest.len() == b.len() - l, "C16.seq.len.agrees_with_next_start");
+                    }
+                }
+                kani::assert(r.is_ok() || x > usize::MAX as u128, "C16.seq.len.ok_when_representable");
+            }
+            None => kani::assert(r.is_err(), "C16.seq.len.err_without_header"),
+        }
+        kani::cover!(r.is_ok(), "len ok");
+        kani::cover!(r.is_err() && hdr(b).is_none(), "no header");
+        kani::cover!(
+            r.is_err() && matches!(hdr(b).and_then(|h| extent(b, h)), Some(x) if x > usize::MAX as u128),
+            "extent above usize::MAX refused"
+        );
+        kani::cover!(
+            r.is_ok() && matches!(hdr(b).and_then(|h| extent(b, h)), Some(x) if x == usize::MAX as u128),
+            "largest representable extent"
+        );
+    }
+
+    /// Defect D4 (repaired in 10545de; was read.rs:1113-1115 of 8398ecf): for a declared length
+    /// >= 2^64 - (1 + tag + 8) the sum overflowed (panic with overflow checks, wrapped length
+    /// without). Minimal input: 13 ff*8 (inside a struct: 15 13 ff*8).
+    // TIER: quick
+    // KIND: bounded (24 bytes; loop-free)
+    #[kani::proof]
+    fn c16_d4_len_total() {
+        let buf: [u8; 24] = kani::any();
+        let b = any_prefix(&buf);
+        check_len(b);
+    }
+
+    // ------------------------------------------------------------------------------------------
+    // Container walks: container_next, container_len, container_value / raw_value, value, tlv
+    // ------------------------------------------------------------------------------------------
+
+    /// `container_next` (the step of `TLVSequenceIter`): total; the result is a suffix of the
+    /// input, strictly shorter unless the cursor rests on the end marker / empty input.
+    fn check_container_next(b: &[u8]) {
+        let n = b.len();
+        let s = TLVSequence(b);
+        let r = s.container_next();
+        if let Ok(r) = &r {
+            kani::assert(within(b, r.0), "C16.seq.container_next.within_input");
+            kani::assert(r.0.len() <= n, "C16.seq.container_next.never_longer");
+            kani::assert(is_range(b, r.0, n - r.0.len(), r.0.len()), "C16.seq.container_next.is_suffix");
+            let rests = n == 0 || b[0] == 0x18;
+            kani::assert(rests == (r.0.len() == n), "C16.seq.container_next.strictly_shorter_unless_at_end");
+            if let Some(h) = hdr(b) {
+                if h.ty < 0x15 {
+                    // not a container: exactly the element extent is skipped
+                    kani::assert(
+                        extent(b, h) == Some((n - r.0.len()) as u128),
+                        "C16.seq.container_next.scalar_skips_extent"
+                    );
+                } else if h.ty < 0x18 {
+                    // a container: the octet before the result is the matching end marker
+                    kani::assert(
+                        n - r.0.len() >= 2 + h.tag && b[n - r.0.len() - 1] == 0x18,
+                        "C16.seq.container_next.container_skips_to_end_marker"
+                    );
+                }
+            }
+        } else {
+            kani::assert(n > 0, "C16.seq.container_next.empty_is_ok");
+        }
+        kani::cover!(matches!(&r, Ok(r) if matches!(hdr(b), Some(h) if h.ty == 0x15) && r.0.len() + 4 < n), "container with members skipped");
+        kani::cover!(matches!(&r, Ok(r) if matches!(hdr(b), Some(h) if h.ty == 0x15) && n >= 4 && b[1] & 0x1f == 0x16 && r.0.len() + 4 <= n), "nested container skipped");
+        kani::cover!(r.is_err() && matches!(hdr(b), Some(h) if h.ty == 0x16), "unterminated array");
+    }
+
+    // TIER: thorough
+    // KIND: bounded (7 bytes)
+    #[kani::proof]
+    #[kani::unwind(9)]
+    fn c16_seq_container_next_7() {
+        let buf: [u8; 7] = kani::any();
+        check_container_next(any_prefix(&buf));
+    }
+
+    // TIER: thorough
+    // KIND: bounded (12 bytes)
+    #[kani::proof]
+    #[kani::unwind(14)]
+    fn c16_seq_container_next_12() {
+        let buf: [u8; 12] = kani::any();
+        check_container_next(any_prefix(&buf));
+    }
+
+    /// `container_len`: total; consistent with the walk `container_next` makes.
+    fn check_container_len(b: &[u8]) {
+        let n = b.len();
+        let s = TLVSequence(b);
+        let h = hdr(b);
+        let walk = s.container_next();
+        let cl = s.container_len();
+        if let Some(h) = h {
+            let is_cont = h.ty >= 0x15 && h.ty <= 0x17;
+            // whenever the walk over the element succeeds, the length is reported and is exactly
+            // what the walk skipped
+            if h.ty != 0x18 {
+                if let Ok(w) = &walk {
+                    kani::assert(
+                        matches!(cl, Ok(l) if l == n - w.0.len()),
+                        "C16.seq.container_len.agrees_with_container_next"
+                    );
+                }
+            }
+            if is_cont {
+                kani::assert(cl.is_ok() == walk.is_ok(), "C16.seq.container_len.container_ok_iff_walk_ok");
+                if let Ok(l) = cl {
+                    kani::assert(l <= n, "C16.seq.container_len.container_within_input");
+                }
+            }
+        } else {
+            kani::assert(cl.is_err(), "C16.seq.container_len.err_without_header");
+        }
+        kani::cover!(matches!(h, Some(h) if h.ty == 0x15) && matches!(cl, Ok(l) if l >= 5), "struct with members measured");
+        kani::cover!(matches!(h, Some(h) if h.ty == 0x16) && matches!(cl, Ok(l) if l < n), "array followed by more octets");
+        kani::cover!(matches!(h, Some(h) if h.ty == 0x17) && cl.is_err(), "malformed list refused");
+    }
+
+    // TIER: thorough
+    // KIND: bounded (7 bytes)
+    #[kani::proof]
+    #[kani::unwind(9)]
+    fn c16_seq_container_len_7() {
+        let buf: [u8; 7] = kani::any();
+        check_container_len(any_prefix(&buf));
+    }
+
+
+
+
+    /// The property's wording "the length reported for an element always lies within the input",
+    /// taken literally for the `pub(crate)` entry point `container_len` on every element kind.
+    // TIER: quick
+    // KIND: bounded (2 bytes)
+    #[kani::proof]
+    #[kani::unwind(4)]
+    fn c16_new_container_len_within_input() {
+        let buf: [u8; 2] = kani::any();
+        let b = any_prefix(&buf);
+        let r = TLVSequence(b).container_len();
+        if let Ok(l) = r {
+            kani::assert(l <= b.len(), "C16.seq.container_len.within_input");
+        }
+        kani::cover!(r.is_ok(), "length reported");
+    }
+
+    // ------------------------------------------------------------------------------------------
+    // TLVElement: the typed accessors
+    // ------------------------------------------------------------------------------------------
+
+    /// Unsigned integers: accepted exactly when the element is an unsigned integer no wider than the
+    /// accessor and lies in the input; the value is the little-endian payload.
+    fn check_unsigned_accessors(b: &[u8]) {
+        let e = TLVElement::new(b);
+        let h = hdr(b);
+        let want_u = |maxw: usize| -> Option<u64> {
+            let h = h?;
+            if h.ty < 4 || h.ty > 7 {
+                return None;
+            }
+            let w = 1usize << (h.ty - 4);
+            if w > maxw {
+                return None;
+            }
+            le(b, 1 + h.tag, w)
+        };
+        kani::assert(e.u8().ok().map(u64::from) == want_u(1), "C16.elem.u8.exact");
+        kani::assert(e.u16().ok().map(u64::from) == want_u(2), "C16.elem.u16.exact");
+        kani::assert(e.u32().ok().map(u64::from) == want_u(4), "C16.elem.u32.exact");
+        kani::assert(e.u64().ok() == want_u(8), "C16.elem.u64.exact");
+        kani::cover!(e.u64().is_ok() && e.u32().is_err(), "u64-only value");
+        kani::cover!(matches!(e.u32(), Ok(v) if v > 0xffff) && e.u16().is_err(), "u32-only value");
+        kani::cover!(matches!(h, Some(h) if h.ty == 7) && e.u64().is_err(), "truncated u64");
+        kani::cover!(matches!(h, Some(h) if h.ty == 4 && h.tag == 1) && e.u8().is_ok(), "u8 under a context tag");
+    }
+
+    // TIER: thorough
+    // KIND: bounded (18 bytes; loop-free, such an element has at most 17 octets)
+    #[kani::proof]
+    fn c16_elem_unsigned_accessors() {
+        let buf: [u8; 18] = kani::any();
+        let b = any_prefix(&buf);
+        check_unsigned_accessors(b);
+        kani::cover!(b.len() == 17 && b[0] >> 5 == 7, "8-octet tag form, 17 octets");
+    }
+
+    /// Signed integers: as above, sign-extended when a wider accessor reads a narrower element.
+    fn check_signed_accessors(b: &[u8]) {
+        let e = TLVElement::new(b);
+        let h = hdr(b);
+        let want_i = |maxw: usize| -> Option<i64> {
+            let h = h?;
+            if h.ty > 3 {
+                return None;
+            }
+            let w = 1usize << h.ty;
+            if w > maxw {
+                return None;
+            }
+            le(b, 1 + h.tag, w).map(|u| sext(u, w))
+        };
+        kani::assert(e.i8().ok().map(i64::from) == want_i(1), "C16.elem.i8.exact");
+        kani::assert(e.i16().ok().map(i64::from) == want_i(2), "C16.elem.i16.exact");
+        kani::assert(e.i32().ok().map(i64::from) == want_i(4), "C16.elem.i32.exact");
+        kani::assert(e.i64().ok() == want_i(8), "C16.elem.i64.exact");
+        kani::cover!(matches!(e.i64(), Ok(v) if v < 0) && e.i8().is_ok(), "negative one-octet value widened");
+        kani::cover!(matches!(e.i64(), Ok(i64::MIN)), "i64::MIN");
+        kani::cover!(matches!(h, Some(h) if h.ty == 2) && e.i32().is_err(), "truncated i32");
+    }
+
+    // TIER: thorough
+    // KIND: bounded (18 bytes; loop-free, such an element has at most 17 octets)
+    #[kani::proof]
+    fn c16_elem_signed_accessors() {
+        let buf: [u8; 18] = kani::any();
+        let b = any_prefix(&buf);
+        check_signed_accessors(b);
+        kani::cover!(b.len() == 17 && b[0] >> 5 == 7, "8-octet tag form, 17 octets");
+    }
+
+    /// Floats (bit patterns), bool, null and the untyped queries.
+    fn check_float_bool_null_accessors(b: &[u8]) {
+        let e = TLVElement::new(b);
+        let h = hdr(b);
+
+        let want_f32 = h.and_then(|h| if h.ty == 0x0a { le(b, 1 + h.tag, 4) } else { None });
+        let want_f64 = h.and_then(|h| if h.ty == 0x0b { le(b, 1 + h.tag, 8) } else { None });
+        kani::assert(e.f32().ok().map(|f| f.to_bits() as u64) == want_f32, "C16.elem.f32.exact_bits");
+        kani::assert(e.f64().ok().map(|f| f.to_bits()) == want_f64, "C16.elem.f64.exact_bits");
+
+        let want_bool = h.and_then(|h| if h.ty == 8 { Some(false) } else if h.ty == 9 { Some(true) } else { None });
+        kani::assert(e.bool().ok() == want_bool, "C16.elem.bool.exact");
+        kani::assert(e.null().is_ok() == matches!(h, Some(h) if h.ty == 0x14), "C16.elem.null.exact");
+        kani::assert(e.is_container().ok() == h.map(|h| h.ty >= 0x15), "C16.elem.is_container.exact");
+        kani::assert(e.is_empty() == b.is_empty(), "C16.elem.is_empty.exact");
+        kani::assert(e.non_empty().is_some() == !b.is_empty(), "C16.elem.non_empty.exact");
+        kani::assert(is_range(b, e.raw_data(), 0, b.len()), "C16.elem.raw_data.is_input");
+        kani::assert(e.control().is_ok() == h.is_some(), "C16.elem.control.ok_iff_assigned_type");
+
+        kani::cover!(e.f64().is_ok(), "f64");
+        kani::cover!(matches!(e.f32(), Ok(f) if f.is_nan()), "f32 NaN");
+        kani::cover!(matches!(h, Some(h) if h.ty == 0x0b) && e.f64().is_err(), "truncated f64");
+        kani::cover!(e.bool().is_ok() && e.null().is_err(), "bool");
+        kani::cover!(e.null().is_ok(), "null");
+    }
+
+    // TIER: quick
+    // KIND: bounded (11 bytes; loop-free; first element with anonymous or context tag - all tag forms in the thorough twin)
+    #[kani::proof]
+    fn c16_elem_float_bool_null_accessors_short_tag() {
+        let buf: [u8; 11] = kani::any();
+        let b = any_prefix(&buf);
+        kani::assume(short_tag(b));
+        check_float_bool_null_accessors(b);
+    }
+
+    // TIER: thorough
+    // KIND: bounded (18 bytes; loop-free, such an element has at most 17 octets)
+    #[kani::proof]
+    fn c16_elem_float_bool_null_accessors() {
+        let buf: [u8; 18] = kani::any();
+        let b = any_prefix(&buf);
+        check_float_bool_null_accessors(b);
+        kani::cover!(b.len() == 17 && b[0] >> 5 == 7, "8-octet tag form, 17 octets");
+    }
+
+    /// Octet strings and UTF-8 strings through `str` and `octets`, for every length-field width
+    /// and every declared length up to 2^64-1. (Loop-free: no UTF-8 validation on this path.)
+    fn check_octets_accessors(b: &[u8]) {
+        let n = b.len();
+        let e = TLVElement::new(b);
+        let h = hdr(b);
+        let payload: Option<(usize, usize)> = h.and_then(|h| {
+            if h.ll > 0 && complete(b, h) {
+                Some((1 + h.tag + h.ll, declared(b, h).unwrap() as usize))
+            } else {
+                None
+            }
+        });
+        let is_str = matches!(h, Some(h) if h.ty >= 0x10 && h.ty <= 0x13);
+
+        let s = e.str();
+        kani::assert(s.is_ok() == (is_str && payload.is_some()), "C16.elem.str.ok_iff_complete_octet_string");
+        if let (Ok(s), Some((off, len))) = (s, payload) {
+            kani::assert(is_range(b, s, off, len), "C16.elem.str.is_payload_octets");
+        }
+        let o = e.octets();
+        kani::assert(o.is_ok() == payload.is_some(), "C16.elem.octets.ok_iff_complete_string");
+        if let (Ok(o), Some((off, len))) = (o, payload) {
+            kani::assert(is_range(b, o, off, len) && within(b, o), "C16.elem.octets.is_payload_octets");
+        }
+        kani::cover!(matches!(h, Some(h) if h.ll == 8) && e.str().is_ok() && n > 10, "64-bit length octet string with payload");
+        kani::cover!(matches!(h, Some(h) if h.ll == 8 && declared(b, h) == Some(u64::MAX)), "declared length 2^64-1 refused");
+        kani::cover!(matches!(h, Some(h) if h.ll == 2) && e.octets().is_ok() && e.str().is_err(), "utf8 string, 16-bit length, read as octets");
+        kani::cover!(matches!(h, Some(h) if h.ll == 4 && !complete(b, h)) && e.octets().is_err(), "truncated 32-bit length string");
+    }
+
+    // TIER: quick
+    // KIND: bounded (12 bytes; loop-free; first element with anonymous or context tag - all tag forms in the thorough twin)
+    #[kani::proof]
+    fn c16_elem_octets_accessors_short_tag() {
+        let buf: [u8; 12] = kani::any();
+        let b = any_prefix(&buf);
+        kani::assume(short_tag(b));
+        check_octets_accessors(b);
+    }
+
+    // TIER: thorough
+    // KIND: bounded (20 bytes; loop-free)
+    #[kani::proof]
+    fn c16_elem_octets_accessors() {
+        let buf: [u8; 20] = kani::any();
+        let b = any_prefix(&buf);
+        check_octets_accessors(b);
+        kani::cover!(b.len() == 20 && b[0] >> 5 == 7 && TLVElement::new(b).str().is_ok(), "8-octet tag form, 20 octets");
+    }
+
+    /// `tag`, `ctx`, `try_ctx`, `confirm_anon` for all eight tag forms.
+    // TIER: quick
+    // KIND: bounded (10 bytes; loop-free, these accessors inspect at most the first 9 octets and the length)
+    #[kani::proof]
+    fn c16_elem_tag_accessors() {
+        let buf: [u8; 10] = kani::any();
+        let b = any_prefix(&buf);
+        let n = b.len();
+        let e = TLVElement::new(b);
+        let h = hdr(b);
+        let tag_fits = matches!(h, Some(h) if 1 + h.tag <= n);
+
+        let t = e.tag();
+        kani::assert(t.is_ok() == tag_fits, "C16.elem.tag.ok_iff_tag_in_input");
+        if let (Ok(t), Some(h)) = (&t, h) {
+            let tc = b[0] >> 5;
+            kani::assert(t.tag_type() as u8 == tc, "C16.elem.tag.type_is_tag_control");
+            let f16 = |o: usize| le(b, 1 + o, 2).unwrap() as u16;
+            let ok = match t {
+                TLVTag::Anonymous => h.tag == 0,
+                TLVTag::Context(v) => Some(*v as u64) == le(b, 1, 1),
+                TLVTag::CommonPrf16(v) | TLVTag::ImplPrf16(v) => Some(*v as u64) == le(b, 1, 2),
+                TLVTag::CommonPrf32(v) | TLVTag::ImplPrf32(v) => Some(*v as u64) == le(b, 1, 4),
+                TLVTag::FullQual48 { vendor_id, profile, tag } => *vendor_id == f16(0) && *profile == f16(2) && *tag == f16(4),
+                TLVTag::FullQual64 { vendor_id, profile, tag } => {
+                    *vendor_id == f16(0) && *profile == f16(2) && Some(*tag as u64) == le(b, 5, 4)
+                }
+            };
+            kani::assert(ok, "C16.elem.tag.fields_are_little_endian_tag_octets");
+        }
+
+        let is_ctx = matches!(h, Some(_)) && b[0] >> 5 == 1;
+        let tc = e.try_ctx();
+        kani::assert(tc.is_ok() == (h.is_some() && (!is_ctx || n >= 2)), "C16.elem.try_ctx.ok_iff_tag_in_input");
+        if let Ok(v) = tc {
+            kani::assert(v == if is_ctx { Some(b[1]) } else { None }, "C16.elem.try_ctx.exact");
+        }
+        kani::assert(e.ctx().ok() == if is_ctx && n >= 2 { Some(b[1]) } else { None }, "C16.elem.ctx.exact");
+        kani::assert(e.confirm_anon().is_ok() == (h.is_some() && b[0] >> 5 == 0), "C16.elem.confirm_anon.exact");
+
+        kani::cover!(matches!(&t, Ok(TLVTag::FullQual64 { .. })), "fully qualified tag read");
+        kani::cover!(matches!(h, Some(h) if h.tag == 8) && t.is_err(), "truncated tag refused");
+        kani::cover!(matches!(&t, Ok(TLVTag::ImplPrf16(0xbeef))), "implicit profile tag 0xbeef");
+        kani::cover!(matches!(e.ctx(), Ok(7)), "context tag 7");
+    }
+
+    /// Entering a container: `structure`, `struct`, `array`, `list`, `container`.
+    // TIER: thorough
+    // KIND: bounded (10 bytes; loop-free, these accessors inspect at most the first 9 octets and the length)
+    #[kani::proof]
+    fn c16_elem_enter_container() {
+        let buf: [u8; 10] = kani::any();
+        let b = any_prefix(&buf);
+        let n = b.len();
+        let e = TLVElement::new(b);
+        let h = hdr(b);
+
+        // entering a container: accepted iff the element type matches and the header is in the input;
+        // the result is the input after the header - strictly shorter
+        let want = |lo: u8, hi: u8| matches!(h, Some(h) if h.ty >= lo && h.ty <= hi && 1 + h.tag <= n);
+        let after_header = |r: &TLVSequence<'_>| match h {
+            Some(h) => 1 + h.tag <= n && is_range(b, r.0, 1 + h.tag, n - 1 - h.tag) && r.0.len() < n,
+            None => false,
+        };
+        let r = e.structure();
+        kani::assert(r.is_ok() == want(0x15, 0x15), "C16.elem.structure.ok_iff_struct_header_in_input");
+        if let Ok(r) = &r {
+            kani::assert(after_header(r), "C16.elem.structure.is_input_after_header");
+        }
+        let r = e.r#struct();
+        kani::assert(r.is_ok() == want(0x15, 0x15), "C16.elem.struct.ok_iff_struct_header_in_input");
+        if let Ok(r) = &r {
+            kani::assert(after_header(r), "C16.elem.struct.is_input_after_header");
+        }
+        let r = e.array();
+        kani::assert(r.is_ok() == want(0x16, 0x16), "C16.elem.array.ok_iff_array_header_in_input");
+        if let Ok(r) = &r {
+            kani::assert(after_header(r), "C16.elem.array.is_input_after_header");
+        }
+        let r = e.list();
+        kani::assert(r.is_ok() == want(0x17, 0x17), "C16.elem.list.ok_iff_list_header_in_input");
+        if let Ok(r) = &r {
+            kani::assert(after_header(r), "C16.elem.list.is_input_after_header");
+        }
+        let r = e.container();
+        kani::assert(r.is_ok() == want(0x15, 0x17), "C16.elem.container.ok_iff_container_header_in_input");
+        if let Ok(r) = &r {
+            kani::assert(after_header(r), "C16.elem.container.is_input_after_header");
+        }
+
+        kani::cover!(e.structure().is_ok() && n > 4, "struct entered");
+        kani::cover!(e.list().is_ok() && e.array().is_err(), "list entered");
+        kani::cover!(matches!(h, Some(h) if h.ty == 0x16 && h.tag == 8) && e.array().is_err(), "array with truncated tag refused");
+        kani::cover!(matches!(h, Some(h) if h.ty == 0x16 && h.tag == 8) && e.array().is_ok(), "array under 8-octet tag entered");
+    }
+
+    // ------------------------------------------------------------------------------------------
+    // Iterators: the termination measure
+    // ------------------------------------------------------------------------------------------
+
+    /// One `TLVSequenceIter::next` from an arbitrary cursor. Returns `Some(progressed)` when the
+    /// step yielded `Some(Err(_))` (the D11 obligation is stated on it by `c16_d11_*`).
+    fn check_seq_iter_step(b: &[u8]) -> Option<bool> {
+        let n = b.len();
+        let mut it = TLVSequenceIter(TLVSequence(b));
+        let r = it.next();
+        let after = it.0 .0;
+        kani::assert(within(b, after) && after.len() <= n, "C16.iter.cursor_stays_in_input");
+        let err_progress = match &r {
+            Some(Ok(e)) => {
+                kani::assert(after.len() < n, "C16.iter.some_ok_strictly_shortens_cursor");
+                kani::assert(is_range(b, after, n - after.len(), after.len()), "C16.iter.cursor_is_suffix");
+                kani::assert(is_range(b, e.raw_data(), 0, n) && !e.is_empty(), "C16.iter.yields_element_at_cursor");
+                None
+            }
+            Some(Err(_)) => Some(after.len() < n),
+            None => {
+                // exhausted: empty cursor or end marker, and the cursor rests
+                kani::assert(n == 0 || b[0] == 0x18, "C16.iter.none_only_at_end");
+                kani::assert(after.len() == n, "C16.iter.none_leaves_cursor");
+                None
+            }
+        };
+        kani::cover!(matches!(&r, Some(Ok(_))) && after.len() + 3 < n, "container member skipped");
+        kani::cover!(matches!(&r, Some(Err(_))), "malformed element");
+        kani::cover!(r.is_none() && n > 0, "end marker");
+        err_progress
+    }
+
+    // TIER: thorough
+    // KIND: bounded (7 bytes)
+    #[kani::proof]
+    #[kani::unwind(9)]
+    fn c16_iter_seq_step_7() {
+        let buf: [u8; 7] = kani::any();
+        let _ = check_seq_iter_step(any_prefix(&buf));
+    }
+
+    // TIER: thorough
+    // KIND: bounded (12 bytes)
+    #[kani::proof]
+    #[kani::unwind(14)]
+    fn c16_iter_seq_step_12() {
+        let buf: [u8; 12] = kani::any();
+        let _ = check_seq_iter_step(any_prefix(&buf));
+    }
+
+    /// EXPECTED TO FAIL on the current tree (defect D11, read.rs:1261-1267): on a malformed element
+    /// `next` returns `Some(Err(_))` and leaves the cursor where it was, so the next call yields the
+    /// same error again - `iter().count()`, `.flatten()`, `for x in iter { if let Ok(..) }` never end.
+    /// Counterexample: the single octet 00 (a signed integer without its payload).
+    // TIER: quick
+    // KIND: bounded (3 bytes)
+    #[kani::proof]
+    #[kani::unwind(5)]
+    fn c16_d11_iter_seq_progress_on_error() {
+        let buf: [u8; 3] = kani::any();
+        if let Some(progressed) = check_seq_iter_step(any_prefix(&buf)) {
+            kani::assert(progressed, "C16.d11.iter.some_err_strictly_shortens_cursor");
+        }
+    }
+
+    /// `TLVSequenceTLVIter::advance` (the only place the flattening iterator moves its cursor;
+    /// `next` = `current`, `advance`, then decoding tag and value of the element it left):
+    /// from an arbitrary state (cursor, nesting), `Ok` with a moved cursor means a strictly shorter
+    /// suffix of the input. Representation invariant: `nesting` counts container starts among the
+    /// octets already consumed, and a slice has at most `isize::MAX` octets.
+    /// DOMAIN SPLIT: the state "nesting == 0 and the element after the current one is the end
+    /// marker" is excluded here and is the whole domain of `c16_new_tlviter_first_level_end`.
+    // TIER: quick
+    // KIND: bounded (12 bytes; loop-free; domain: not (nesting == 0 and next element is the end marker))
+    #[kani::proof]
+    fn c16_tlviter_advance() {
+        let buf: [u8; 12] = kani::any();
+        let b = any_prefix(&buf);
+        let n = b.len();
+        let nesting: usize = kani::any();
+        kani::assume(nesting <= isize::MAX as usize);
+        let next_is_end = matches!(TLVSequence(b).next_enter(), Ok(s) if s.0.first() == Some(&0x18));
+        kani::assume(!(nesting == 0 && next_is_end));
+        let mut it = TLVSequenceTLVIter { seq: TLVSequence(b), nesting };
+        let r = it.advance();
+        let after = it.seq.0;
+        kani::assert(within(b, after) && after.len() <= n, "C16.tlviter.advance.cursor_stays_in_input");
+        kani::assert(is_range(b, after, n - after.len(), after.len()), "C16.tlviter.advance.cursor_is_suffix");
+        let rests = nesting == 0 && (n == 0 || b[0] == 0x18);
+        if r.is_ok() {
+            kani::assert(rests == (after.len() == n), "C16.tlviter.advance.ok_strictly_shortens_unless_at_end");
+            kani::assert(
+                it.nesting <= nesting + 1 && it.nesting + 1 >= nesting,
+                "C16.tlviter.advance.nesting_changes_by_at_most_one"
+            );
+        }
+        kani::cover!(r.is_ok() && it.nesting > nesting, "arrived at a nested container");
+        kani::cover!(r.is_ok() && it.nesting < nesting, "arrived at an end marker");
+        kani::cover!(r.is_err() && after.len() < n, "error after moving");
+        kani::cover!(r.is_err() && after.len() == n && n > 0, "error without moving");
+        kani::cover!(r.is_ok() && rests && n > 0, "rests at the end marker");
+    }
+
+    /// The excluded state of `c16_tlviter_advance`, as `tlv_iter()` really starts (`nesting == 0`):
+    /// e.g. the members `04 01 18` of the struct `15 04 01 18`. On the current tree
+    /// `self.nesting -= 1` (read.rs:1224) underflows: panic with overflow checks, `usize::MAX` without.
+    // TIER: quick
+    // KIND: bounded (12 bytes; loop-free)
+    #[kani::proof]
+    fn c16_new_tlviter_first_level_end() {
+        let buf: [u8; 12] = kani::any();
+        let b = any_prefix(&buf);
+        let next_is_end = matches!(TLVSequence(b).next_enter(), Ok(s) if s.0.first() == Some(&0x18));
+        kani::assume(next_is_end);
+        let mut it = TLVSequence(b).tlv_iter();
+        let r = it.advance();
+        kani::assert(r.is_err() || it.nesting == 0, "C16.tlviter.advance.first_level_end_keeps_nesting_0");
+        kani::cover!(r.is_ok(), "arrived at the end marker of the enclosing container");
+    }
+
+    /// EXPECTED TO FAIL on the current tree (defect D11 for the flattening iterator, read.rs:1235):
+    /// when `current()` refuses the octet at the cursor, `next` returns `Some(Err(_))` with the
+    /// cursor where it was. Domain: cursors whose first octet `current()` refuses (this keeps the
+    /// harness on the path that does not decode a value).
+    // TIER: thorough
+    // KIND: bounded (3 bytes; domain: current() is Err)
+    #[kani::proof]
+    #[kani::unwind(5)]
+    fn c16_d11_tlviter_progress_on_error() {
+        let buf: [u8; 3] = kani::any();
+        let b = any_prefix(&buf);
+        let nesting: usize = kani::any();
+        kani::assume(nesting <= isize::MAX as usize);
+        kani::assume(TLVSequence(b).current().is_err());
+        let mut it = TLVSequenceTLVIter { seq: TLVSequence(b), nesting };
+        let r = it.next();
+        kani::cover!(matches!(&r, Some(Err(_))), "error yielded");
+        if let Some(Err(_)) = &r {
+            kani::assert(it.seq.0.len() < b.len(), "C16.d11.tlviter.some_err_strictly_shortens_cursor");
+        }
+    }
+}
